@@ -31,10 +31,13 @@ def private(r):
         return None
 
 
-def do_op(r, op, flags):
+def do_op(r, op, flags, kept=None):
     k = op[0]
     if k == 'r':
-        return ['MSG', L.canon_result(next(r), flags)]
+        x = next(r)
+        if kept is not None:
+            kept.append(x)
+        return ['MSG', L.canon_result(x, flags)]
     if k == 'ft':
         ts = [L.mtype(t) for t in op[1]]
         r.filter_in_place(ts[0] if len(ts) == 1 else set(ts))
@@ -74,15 +77,20 @@ def run_script(path, case):
     except Exception as e:
         return {'cerr': type(e).__name__}
     out = []
+    kept = []
     for op in case['ops']:
         try:
-            res = do_op(r, op, flags)
+            res = do_op(r, op, flags, kept)
         except StopIteration:
             res = ['STOP']
         except Exception as e:
             res = ['ERR', type(e).__name__]
         out.append({'res': res, 'priv': private(r)})
-    return {'steps': out}
+    # the messages as a caller that kept them sees them after the whole script
+    after = [L.canon_result(x, flags) for x in kept]
+    live = [s['res'][1] for s in out if s['res'][0] == 'MSG']
+    return {'steps': out, 'retained_same': after == live, 'alias': L.aliased(kept, flags),
+            'retained_first_diff': next(([a, b] for a, b in zip(live, after) if a != b), None)}
 
 
 def main():
